@@ -7,7 +7,7 @@ LEAN_TARGETS = ['LLTD.Props.C13']
 VARIANT = 'plain'
 RULE = ('band_update_stats / band_choose_hello_time on band states set through the public struct: r dense at '
         '{0..20, 9768..9772, 65535..65537, 2^k and 2^k±1, 2^32-1} x prior Ni x begun, plus seeded random r; thorough adds '
-        'a strided sweep of the whole 32-bit range; plus automata_tick on band states whose Hello and block deadlines expire together or apart (the block end inside the tick); non-trivial = Ni changed; distinct = distinct (r, begun, Ni before) triple')
+        'a strided sweep of the whole 32-bit range; plus band_on_hello_received at the 8/16/32-bit boundaries of the counter (every Hello heard adds exactly one); plus automata_tick on band states whose Hello and block deadlines expire together or apart (the block end inside the tick); non-trivial = Ni changed; distinct = distinct (r, begun, Ni before) triple')
 ASSUMPTIONS = ['time stamps stay below 2^63 ms (no uint64_t wrap-around of now + interval)']
 project = ident
 
@@ -41,6 +41,12 @@ def cases(rng, tier, X):
             ops.append('band update 0')
             ops.append('band choose 0')
         out.append(('r%d' % c, ops))
+    # the counter itself: Hellos heard at the 8/16/32-bit boundaries of r, then the block end
+    ops = ['fsm new 0 enum', 'clock 1000']
+    for r in [0, 1, 8, 9, 10, 254, 255, 256, 65534, 65535, 65536, 65537, 131071, 2**24 - 1, 2**31 - 1, 2**32 - 3, 2**32 - 2]:
+        ops.append('band set 0 45 %d 1 0 0' % r)
+        ops += ['band heard 0', 'band heard 0', 'band update 0', 'band choose 0']
+    out.append(('heard', ops))
     # sequences through the public calls only (heard ... update ... dohello)
     for k in range(40 if tier == 'quick' else 2000):
         ops = ['fsm new 0 enum', 'band init 0']
